@@ -585,16 +585,8 @@ func (b *ShardBuilder) Add(doc Document) error {
 			return fmt.Errorf("path %q must start subrepo path %q", doc.Name, doc.SubRepositoryPath)
 		}
 	}
-	docStr, runeSecs, err := b.contentPostings.newSearchableString(doc.Content, doc.Symbols)
-	if err != nil {
-		return err
-	}
-	nameStr, _, err := b.namePostings.newSearchableString([]byte(doc.Name), nil)
-	if err != nil {
-		return err
-	}
-	b.addSymbols(doc.SymbolsMetaData)
-
+	// Reject the document before any of it goes into the posting lists: a
+	// rejected document must leave the builder as it was.
 	repoIdx := len(b.repoList) - 1
 	subRepoIdx, ok := b.subRepoIndices[repoIdx][doc.SubRepositoryPath]
 	if !ok {
@@ -614,6 +606,30 @@ func (b *ShardBuilder) Add(doc Document) error {
 		return fmt.Errorf("too many repos in shard: max is %d", 1<<16)
 	}
 
+	category, err := doc.Category.encode()
+	if err != nil {
+		return err
+	}
+
+	langCode, ok := b.languageMap[doc.Language]
+	if !ok {
+		if len(b.languageMap) >= 65535 {
+			return fmt.Errorf("too many languages")
+		}
+		langCode = uint16(len(b.languageMap))
+		b.languageMap[doc.Language] = langCode
+	}
+
+	docStr, runeSecs, err := b.contentPostings.newSearchableString(doc.Content, doc.Symbols)
+	if err != nil {
+		return err
+	}
+	nameStr, _, err := b.namePostings.newSearchableString([]byte(doc.Name), nil)
+	if err != nil {
+		return err
+	}
+	b.addSymbols(doc.SymbolsMetaData)
+
 	b.subRepos = append(b.subRepos, subRepoIdx)
 	b.repos = append(b.repos, uint16(repoIdx))
 
@@ -629,20 +645,7 @@ func (b *ShardBuilder) Add(doc Document) error {
 	b.branchMasks = append(b.branchMasks, mask)
 	b.checksums = append(b.checksums, hasher.Sum(nil)...)
 
-	langCode, ok := b.languageMap[doc.Language]
-	if !ok {
-		if len(b.languageMap) >= 65535 {
-			return fmt.Errorf("too many languages")
-		}
-		langCode = uint16(len(b.languageMap))
-		b.languageMap[doc.Language] = langCode
-	}
 	b.languages = append(b.languages, uint8(langCode), uint8(langCode>>8))
-
-	category, err := doc.Category.encode()
-	if err != nil {
-		return err
-	}
 	b.categories = append(b.categories, category)
 
 	return nil
